@@ -2,7 +2,8 @@
 histories; the files each plugin owns are compared byte for byte.
 
 Histories per plugin: fresh directory; re-run in the same directory (other seed); run after a
-different (evolved) model; run after hand-placed stale owned files.  The testdata plugin writes
+different (evolved) model; run after hand-placed stale owned files; a generation that follows a
+generation of a different model in the SAME interpreter (both orders) against fresh-process runs.  The testdata plugin writes
 ~340 MB for the full model, so its disk histories use a reduced model (closure of a few methods);
 its full output is compared in-process (name -> content digest) across seeds.
 Usage: python c16_oracle.py [--seed N] [--thorough]  -> JSON
@@ -103,6 +104,43 @@ def run(plugin, model_file, out, seed):
     return p.returncode, (p.stdout + p.stderr)[-600:]
 
 
+SAMEPROC = r'''
+import sys
+sys.path.insert(0, %(repo)r)
+from generator.__main__ import main
+for model, out in %(runs)r:
+    argv = ["--plugin", %(plugin)r, "--output-dir", out, "--test-dir", out + "-tests"]
+    if model:
+        argv += ["--model", model]
+    main(argv)
+'''
+
+
+def run_same_process(plugin, runs, seed):
+    """several generations in ONE interpreter, in order: [(model file or None, output dir), ...]"""
+    env = dict(os.environ)
+    env["PYTHONHASHSEED"] = str(seed)
+    env["PYTHONDONTWRITEBYTECODE"] = "1"
+    p = subprocess.run([sys.executable, "-B", "-c", SAMEPROC % {"repo": str(REPO), "plugin": plugin, "runs": [(str(m) if m else None, str(o)) for m, o in runs]}],
+                       cwd=str(REPO), capture_output=True, text=True, env=env, timeout=1800)
+    return p.returncode, (p.stdout + p.stderr)[-600:]
+
+
+def bases_changed(doc):
+    """the model with one more optional property on every structure that another structure extends or mixes in:
+    what a generation 'remembers' about a base from an earlier model in the same process shows in every derived class"""
+    d = copy.deepcopy(doc)
+    targets = set()
+    for s in d["structures"]:
+        for x in (s.get("extends") or []) + (s.get("mixins") or []):
+            if x.get("kind") == "reference":
+                targets.add(x["name"])
+    for s in d["structures"]:
+        if s["name"] in targets and not any(p["name"] == "evolvedBaseExtra" for p in s["properties"]):
+            s["properties"].append({"name": "evolvedBaseExtra", "type": {"kind": "base", "name": "string"}, "optional": True})
+    return d
+
+
 INPROC = r'''
 import hashlib, json, logging, sys
 sys.path.insert(0, %(repo)r)
@@ -133,6 +171,8 @@ def main():
                                                                 "params": {"kind": "reference", "name": "ExtraStructureOfEvolvedModel"}}]
         (tmp / "small.json").write_text(json.dumps(small))
         (tmp / "evolved.json").write_text(json.dumps(evolved))
+        (tmp / "bases.json").write_text(json.dumps(bases_changed(DOC)))
+        (tmp / "bases-small.json").write_text(json.dumps(bases_changed(small)))
         seeds = [SEED, SEED + 1, SEED + 2, SEED + 3, SEED + 10] + ([SEED + 7, SEED + 13, 12345, 99, 4242, 31337] if THOROUGH else [])
         jobs = []
         for plugin in ("python", "rust", "dotnet", "testdata"):
@@ -188,6 +228,34 @@ def main():
                         res.append((f"{plugin}|stale-files", "stale-owned-files-survive" if extra else "output-differs-with-stale-files",
                                     "same owned files as a fresh run", extra or "content differs", {"stale": [r for r, _ in STALE[plugin]]}))
                     shutil.rmtree(d4, ignore_errors=True)
+                    # H5: earlier generations in the SAME interpreter (programmatic use of generator.__main__.main): a different model first
+                    # (every base / mixin structure changed), then the model; and the other way round, against fresh-process runs
+                    other = tmp / ("bases-small.json" if plugin == "testdata" else "bases.json")
+                    d5a, d5b = tmp / f"{plugin}-same-a", tmp / f"{plugin}-same-b"
+                    rc, log = run_same_process(plugin, [(other, d5a), (mf, d5b)], seed)
+                    n += 2
+                    if rc != 0:
+                        res.append((f"{plugin}|same-process", "plugin-fails", "exit 0", log, {"seed": seed}))
+                    elif digest(plugin, d5b) != ref:
+                        dg5 = digest(plugin, d5b)
+                        diff = sorted(k for k in set(dg5) | set(ref) if dg5.get(k) != ref.get(k))[:4]
+                        res.append((f"{plugin}|same-process", "output-depends-on-an-earlier-generation-in-the-same-process", "same owned files as a fresh-process run",
+                                    {"files_differing": diff}, {"same interpreter": ["model with every base/mixin structure given one more optional property", "the model"]}))
+                    shutil.rmtree(d5a, ignore_errors=True); shutil.rmtree(d5b, ignore_errors=True)
+                    d6 = tmp / f"{plugin}-other-fresh"
+                    rc6, log6 = run(plugin, other, d6, seed)
+                    rc, log = run_same_process(plugin, [(mf, d5a), (other, d5b)], seed)
+                    n += 3
+                    if rc != 0 or rc6 != 0:
+                        res.append((f"{plugin}|same-process", "plugin-fails", "exit 0", log + log6, {"seed": seed}))
+                    elif digest(plugin, d5b) != digest(plugin, d6):
+                        a, b = digest(plugin, d5b), digest(plugin, d6)
+                        diff = sorted(k for k in set(a) | set(b) if a.get(k) != b.get(k))[:4]
+                        res.append((f"{plugin}|same-process", "output-depends-on-an-earlier-generation-in-the-same-process", "same owned files as a fresh-process run",
+                                    {"files_differing": diff}, {"same interpreter": ["the model", "model with every base/mixin structure given one more optional property"]}))
+                    for x in (d5a, d5b, d6):
+                        shutil.rmtree(x, ignore_errors=True)
+                        shutil.rmtree(str(x) + "-tests", ignore_errors=True)
                 shutil.rmtree(d, ignore_errors=True)
                 shutil.rmtree(str(d) + "-tests", ignore_errors=True)
             return plugin, n, len(ref or {}), res
